@@ -53,7 +53,10 @@ class OrthogonalGridSearchOptimizer(BaseOptimizer):
     def iterate(self):
         pos_new = self.grid_move()
         pos_new = self.conv2pos(pos_new)
-        return pos_new
+
+        if self.conv.not_in_constraint(pos_new):
+            return pos_new
+        return self.move_random()
 
     @BaseOptimizer.track_new_score
     def evaluate(self, score_new):
